@@ -75,6 +75,20 @@ CLAIMED["C12"] = dict(
          "[+ learned], noise= on a homoskedastic model is used directly, ...).",
     technique="TLC-enumerated configuration lattice with exact term-multiset decoding replay")
 
+CLAIMED["C16"] = dict(
+    category="model_checking",
+    text="NanPolicy.tla checks exactly over rationals (LinAlg.tla) that what the two policies compute - mask: delete rows/columns of the missing observations; "
+         "fill: zero them keeping the diagonal, filled right-hand side, masked columns - equals the solve and posterior mean of the data set with the "
+         "missing observations deleted, states the same for the posterior covariance (the model of the current code, which solves against all training "
+         "points, is predicted to fail), and model-checks the policy-keyed mean cache under every order of policy switches (a variant keyed without the "
+         "policy is rejected). Every NaN pattern over n points x every policy sequence is replayed on real single-output, multitask and batched exact GPs "
+         "against the Gaussian conditional on the observed entries computed from the model's own prior and noise (1e-7); N*mll(mask) vs N_obs*mll(deleted), "
+         "expected_log_prob and log_marginal sums over observed entries, and 'no NaN in any output' are checked as well.",
+    design_ref="DESIGN.md section 6 (C16)",
+    note="Reading: 'rescaled by the count of observed values' = N*mll(mask) equals N_obs*mll(deleted data). mask on batched targets masks an entry for the "
+         "whole batch (documented). fill with ExactMarginalLogLikelihood is documented as unsupported. Real inputs are seeded samples (n = 4 quick / 5 thorough).",
+    technique="exact rational algebra of mask/fill vs deletion in TLC; TLC cache machine over policy orders; replay of all NaN patterns against the conditional on observed entries")
+
 PENDING = "check not built yet (build in progress; see DESIGN.md section 11)"
 NOT_APPLICABLE = {}
 
